@@ -22,6 +22,7 @@ EXPLANATION = (
 EXPLANATION += (" Added after the audit wave: C03.1 the counter converts each of Tx, Rx on its own (four raw/sequence combinations); C03.9 the dispersive element is C07's all-pass with or without retH; C03.10 GET_EYE splits the ON/OFF populations at a value computed from the level estimates, never at an element picked out of the record (strict comparisons with a sample value can empty a population: nan threshold); C03.11 on a time axis folding k >= 2 slots per trace the populations are not drawn from one sub-slot window of the raw axis (every second slot only: data whose ON slots share a parity leave mu1 = nan).")
 EXPLANATION += (" Second audit wave: C03.12 (= C17.10) the instants handed to GET_EYE's crossing clustering carry a reduction of the time axis modulo the slot, so that transitions of one parity (PPM slots 1001 1001, 0011...) still fill both crossing groups.")
 EXPLANATION += (' Third audit wave: C03.13 (= C13.13) ook.THRESHOLD_EST returns the middle element of the set of exact minimisers of its cost, never the first (argmin, ties[0]) or last: on a noise-free link the cost is exactly 0 over most of [mu0, mu1] and the first zero sits 0.1-1.5 % of the eye above mu0. C03.14 (= C17.12) GET_EYE reads its threshold off the grid linspace(mu0, mu1, n) at the density minimum only under 0 < index < n-1 (or from a grid without its end points); an end-point minimum is a level, not a valley. C03.15 every whole slot of the record enters the eye statistics: the record is cut by its remainder modulo sps (a partial slot), never modulo two slots, and an odd count is continued by one slot so that it folds - the receiver decides every slot, and the last slot of an odd count (next to the wrap-around of the FFT based devices, the most disturbed one) was otherwise decided without having been seen.')
+EXPLANATION += (" Fourth audit wave: C03.16 the density valley that gives GET_EYE's threshold is searched between the bulks of the two populations: an alternative of the search grid runs from mu0 + a*s0 to mu1 - b*s1 with a, b >= 1. From level to level the grid includes the inner half of each population, where a level split by inter-symbol interference on a short record has a dip of its own (two PPM symbols: threshold above the lowest ON sample). C03.12 requires the one-slot image of the crossings on every alternative of the clustered value.")
 TRUSTED = ["the per-block properties C05, C06, C09, C11, C12, C17", "numpy comparison/sum semantics"]
 LEVEL_TEXT = ("Partial, structural: decides the wiring of ook.DSP / ppm.DSP (sampling instant, comparator, threshold source, decoder order) and the "
               "error-counter formula - necessary conditions of C03. The end-to-end claim over all bit patterns and configurations is not decided by "
@@ -297,7 +298,7 @@ def run(ctx):
     from .c13 import rule_tied_minimisers
     rule_tied_minimisers(ctx, "C03.13")
     from .c17 import rule_threshold_interior
-    rule_threshold_interior(ctx, "C03.14")
+    rule_threshold_interior(ctx, "C03.14", "C03.16")
     # every stage of the link reads the sampling grid in force when it is CALLED (a default or cache bound earlier describes another grid)
     check_late_binding(ctx, "C03.5", ["ook.DSP", "ppm.DSP", "ook.BER_analizer", "ppm.BER_analizer", "devices.DAC", "devices.MZM", "devices.PD", "devices.SAMPLER", "devices.LPF",
                                       "devices.GET_EYE", "devices.DM", "ppm.PPM_ENCODER", "ppm.PPM_DECODER", "ppm.HDD", "ppm.SDD", "ppm.THRESHOLD_EST", "ook.THRESHOLD_EST"])
